@@ -118,7 +118,7 @@ ASSUMPTIONS = [
 
 _WS = {'name': 'workspace-histories-differential', 'script': 'wsdiff.py', 'args': [], 'quick_args': ['--len', '3'], 'thorough_args': ['--len', '4'],
        'functions': ['Workspace::add / remove / replace / clear / deploy / evaluate_invocable'],
-       'bound': 'every sequence of up to 3 (thorough: 4) operations over add / replace of five models that share namespaces and names pairwise (one of them does not build), remove of five (namespace, name) pairs (one matching two different '
-                'stored models, one matching nothing), clear and deploy - 5 220 (88 741) histories - each followed by a probe (deploy, evaluations, adds, deploy, evaluations) on the real Workspace, every answer compared with a reference '
+       'bound': 'every sequence of up to 3 (thorough: 4) operations over add / replace of five models that share namespaces and names pairwise (one of them does not build), remove of seven (namespace, name) pairs (one matching two different '
+                'stored models, one matching nothing, one matching by the name only, one by the namespace only), clear and deploy - 7 240 histories in the quick tier - each followed by a probe (evaluations, deploy, evaluations, adds, deploy, evaluations) on the real Workspace, every answer compared with a reference '
                 'written out from the property; also the stand-in when a rewritten body leaves the extractor\'s reach'}
 BOUNDED = {'C17': [_WS]}
